@@ -31,7 +31,7 @@ CORPUS = [
     M("conn-expiry-flipped", L, "        if self._connection_expiration and datetime.now(timezone.utc) > self._connection_expiration:", "        if self._connection_expiration and datetime.now(timezone.utc) < self._connection_expiration:"),
     M("conn-expiry-not-set", L, "        if self._max_connection_lifetime:\n            self._connection_expiration = datetime.now(\n                timezone.utc) + self._max_connection_lifetime\n", ""),
     M("class-level-key", L, "    AUTHENTICATION_EXPIRATION = timedelta(hours=12)\n", "    AUTHENTICATION_EXPIRATION = timedelta(hours=12)\n    _local_key = None\n",
-      also=[(L, "        self._local_key = None\n        self._local_key_expiration = None\n\n    @property\n    def authenticated", "        self._local_key_expiration = None\n\n    @property\n    def authenticated")]),
+      also=[(L, "        self._local_key = None\n        self._local_key_expiration = None\n        self._handshake_pending", "        self._local_key_expiration = None\n        self._handshake_pending")]),
     M("packet-id-not-reset", L, "        self._packet_id = 0\n        self._buffer = bytearray(0)", "        self._buffer = bytearray(0)", also=[(L, "    class PacketType(IntEnum):", "    _packet_id = 0\n\n    class PacketType(IntEnum):")]),
     M("second-data-write-site", L, "        # Sleep briefly before requesting more data\n        await asyncio.sleep(1)", "        self._protocol.write(b\"\")\n        await asyncio.sleep(1)"),
     M("encoder-fixed-id", L, "            packet = self._encode_encrypted_request(self._packet_id, data)", "            packet = self._encode_encrypted_request(0, data)"),
